@@ -499,6 +499,7 @@ func init() {
 			c.ScatterPartition("C08")
 			c.RulerPositions("C08")
 			c.MetadataImmutable("C01")
+			c.RequestBytesReadOnly("C08")
 			c.HandlerSignature("C08")
 			c.SuccessNeedsEverything("C08") // position i of the signature list is the signature made for request i (C06.O2/O3)
 			c.SignIffApproved("C08", nil)
